@@ -48,14 +48,15 @@ static void emit_seq(Bytes &o, const u8 *lit, size_t ll, size_t off, size_t ml /
 void lz4_encode(const Bytes &p, u64 seed, Bytes &out) {
     Rng r(seed); out.clear();
     const size_t n = p.size();
-    unsigned style = r.below(4);
+    unsigned style = r.below(5);      // 4 = sparse: takes matches only until the block is a few bytes shorter than the data
+    const i64 sparse_target = 1 + i64(r.below(16));
     const size_t HB = 16; std::vector<int> head(size_t(1) << HB, -1), prev(n, -1);
     auto h4 = [&](size_t i) { u32 v; memcpy(&v, &p[i], 4); return size_t((v * 2654435761u) >> (32 - HB)); };
     size_t i = 0, lit = 0;
     size_t nomatch_until = 0;
     while (n >= 13 && i + 12 <= n) {
         size_t best_len = 0, best_off = 0;
-        if (i >= nomatch_until) {
+        if (i >= nomatch_until && !(style == 4 && i64(i) - i64(out.size()) - i64(lit) - i64(lit / 255) - 1 - i64((n - i) / 255) - 1 >= sparse_target)) {
             std::vector<std::pair<size_t, size_t>> cands;     // (off, maxlen)
             int j = head[h4(i)]; int chain = style == 0 ? 16 : 8;
             while (j >= 0 && chain-- > 0) {
@@ -68,9 +69,10 @@ void lz4_encode(const Bytes &p, u64 seed, Bytes &out) {
             for (size_t off = 1; off <= 3 && off <= i; ++off) { size_t l = 0, lim = n - 5 - i; while (l < lim && p[i - off + l] == p[i + l]) ++l; if (l >= 4) cands.push_back(std::make_pair(off, l)); }
             if (!cands.empty()) {
                 bool take = style == 3 ? r.chance(1, 6) : style == 1 ? r.chance(4, 5) : true;
+                if (style == 4 && cands[0].second > 24) { for (auto &cd : cands) if (cd.second > 24) cd.second = 8 + r.below(16); }   // small steps towards the target
                 if (take) {
                     size_t c = 0;
-                    if (style == 0) { for (size_t k = 1; k < cands.size(); ++k) if (cands[k].second > cands[c].second) c = k; }
+                    if (style == 0 || style == 4) { for (size_t k = 1; k < cands.size(); ++k) if (cands[k].second > cands[c].second) c = k; }
                     else if (style == 2) { for (size_t k = 1; k < cands.size(); ++k) if (cands[k].first < cands[c].first) c = k; }
                     else c = r.below(u32(cands.size()));
                     best_off = cands[c].first; best_len = cands[c].second;
